@@ -16,6 +16,8 @@ import (
 	"strings"
 	"sync"
 	"time"
+
+	"golang.org/x/tools/go/ssa"
 )
 
 type PropFunc struct {
@@ -213,24 +215,38 @@ func runCheck(pc *PropConfig, tier string, seed int, writeBaseline, verbose bool
 		pf  PropFunc
 		res *FuncResult
 	}
-	jobs := make([]*job, len(pc.Functions))
-	var wg sync.WaitGroup
-	sem := make(chan struct{}, 4)
-	for i, pf := range pc.Functions {
-		i, pf := i, pf
-		jobs[i] = &job{pf: pf}
+	type target struct {
+		pf PropFunc
+		fn *ssa.Function
+	}
+	var targets []target
+	for _, pf := range pc.Functions {
 		pkgPath := modulePathOf(pf.Pkg)
-		fn := l.findFunc(pkgPath, pf.Name)
-		if fn == nil {
+		fns := l.findFuncs(pkgPath, pf.Name)
+		if len(fns) == 0 {
 			out.unbound = append(out.unbound, pkgPath+"."+pf.Name)
 			continue
 		}
+		for _, fn := range fns {
+			targets = append(targets, target{pf, fn})
+		}
+	}
+	jobs := make([]*job, len(targets))
+	var wg sync.WaitGroup
+	sem := make(chan struct{}, 4)
+	for i, tg := range targets {
+		i, pf, fn := i, tg.pf, tg.fn
+		jobs[i] = &job{pf: pf}
 		wg.Add(1)
 		sem <- struct{}{}
 		go func() {
 			defer wg.Done()
 			defer func() { <-sem }()
-			jobs[i].res = verifyFunction(l.prog, l.prog.Fset, l.cs, fn, VerifyOpts{Timeout: timeout, Thorough: tier == "thorough", Workers: 8, Tag: fmt.Sprintf("%s.%d", pc.ID, i)})
+			var kre *regexp.Regexp
+			if pf.Kinds != "" {
+				kre = regexp.MustCompile("^(" + pf.Kinds + "|cover)$")
+			}
+			jobs[i].res = verifyFunction(l.prog, l.prog.Fset, l.cs, fn, VerifyOpts{Kinds: kre, Timeout: timeout, Thorough: tier == "thorough", Workers: 8, Tag: fmt.Sprintf("%s.%d", pc.ID, i)})
 		}()
 	}
 	wg.Wait()
@@ -266,7 +282,7 @@ func runCheck(pc *PropConfig, tier string, seed int, writeBaseline, verbose bool
 		}
 		var kindRe *regexp.Regexp
 		if j.pf.Kinds != "" {
-			kindRe = regexp.MustCompile("^(" + j.pf.Kinds + ")$")
+			kindRe = regexp.MustCompile("^(" + j.pf.Kinds + "|cover)$")
 		}
 		for _, d := range r.Obligations {
 			if kindRe != nil && !kindRe.MatchString(d.Ob.Kind) {
